@@ -146,6 +146,7 @@ fn op_kind(op: &Op) -> &'static str {
         Op::ListPage { .. } => "ListPage",
         Op::Walk { .. } => "Walk",
         Op::Publish { .. } => "Publish",
+        Op::PublishMany { .. } => "Publish",
         Op::Pull { .. } => "Pull",
         Op::DrainPull { .. } => "DrainPull",
         Op::PullBg { .. } => "PullBg",
@@ -288,6 +289,15 @@ fn candidates(plan: &Plan) -> Vec<Plan> {
                     let mut p = plan.clone();
                     p.phases[i].scripts[j][k].abandon_at = 0;
                     out.push(p);
+                }
+                if let Op::PublishMany { count, topic } = &st.op {
+                    for smaller in [1u32, *count / 2, count.saturating_sub(1)] {
+                        if smaller < *count && smaller > 0 {
+                            let mut p = plan.clone();
+                            p.phases[i].scripts[j][k].op = Op::PublishMany { topic: topic.clone(), count: smaller };
+                            out.push(p);
+                        }
+                    }
                 }
                 if let Op::Publish { msgs, .. } = &st.op {
                     if msgs.len() > 1 {
